@@ -53,8 +53,24 @@ def run(ck):
     cases = [{"tree": gen.tree("NeuroMLDocument", ck.n(3, 4), full=(j % 3 == 0))} for j in range(ck.n(8, 40))]
     files = sorted(glob.glob(os.path.join(REPO, "neuroml", "examples", "test_files", "*.nml")))
     files = [f for f in files if os.path.getsize(f) < ck.n(200_000, 5_000_000)]
-    res = ck.impl("c04_impl.py", {"order": order, "tables": tables, "cases": cases, "files": files, "seed": ck.seed},
-                  timeout=1500)["results"]
+    doc = ('<neuroml xmlns="http://www.neuroml.org/schema/neuroml2" id="d">%s</neuroml>')
+    texts = [["charref-tab-in-attribute", doc % '<property tag="a&#9;b" value="v"/>'],
+             ["charref-cr-in-attribute", doc % '<property tag="t" value="x&#13;y"/>'],
+             ["charref-cr-in-text", doc % '<notes>l1&#13;l2</notes>'],
+             ["charref-newline-in-attribute", doc % '<property tag="a&#10;b" value="v"/>'],
+             ["entities-in-attribute-and-text", doc % '<notes>a &lt; b &amp;&amp; c &gt; d</notes><property tag="&quot;q&quot; &apos;a&apos; &lt;&amp;&gt;" value="v"/>']]
+    out = ck.impl("c04_impl.py", {"order": order, "tables": tables, "cases": cases, "files": files, "seed": ck.seed, "texts": texts},
+                  timeout=1500)
+    res = out["results"]
+    for pr in out.get("probes", []):
+        ck.count(1, nontrivial_key="probe:" + pr["name"])
+        if not pr.get("fixed", False):
+            if pr["name"] in ("charref-tab-in-attribute", "charref-cr-in-attribute", "charref-cr-in-text"):
+                ck.witness("C04:tab-or-cr-character-reference-not-a-fixed-point",
+                           "a loaded string holding TAB or CR (from &#9; / &#13;) is written raw and reloads as a blank / newline",
+                           input=pr)
+            else:
+                ck.witness("C04:probe:" + pr["name"], "load -> write -> load is not a fixed point: %s" % (pr.get("diff") or pr.get("err")), input=pr)
     jobs = [("tree", c) for c in cases] + [("file", f) for f in files]
     for (kind, item), r in zip(jobs, res):
         label = item if kind == "file" else "generated"
